@@ -279,11 +279,30 @@ func runMConn1(t *tctx) {
 			sc  *p2p.SecretConnection
 			err error
 		}
-		ch := make(chan res, 2)
-		go func() { sc, err := p2p.MakeSecretConnection(s1, keyA); ch <- res{sc, err} }()
-		var rr res
-		rr.sc, rr.err = p2p.MakeSecretConnection(r2, keyB)
-		sr := <-ch
+		// a side whose handshake fails returns while the other may still wait for bytes: a deadline, and closing both
+		// ends at the first failure, keep that from hanging
+		s1.SetDeadline(time.Now().Add(60 * time.Second))
+		r2.SetDeadline(time.Now().Add(60 * time.Second))
+		chS, chR := make(chan res, 1), make(chan res, 1)
+		go func() { sc, err := p2p.MakeSecretConnection(s1, keyA); chS <- res{sc, err} }()
+		go func() { sc, err := p2p.MakeSecretConnection(r2, keyB); chR <- res{sc, err} }()
+		var sr, rr res
+		for i := 0; i < 2; i++ {
+			select {
+			case sr = <-chS:
+				if sr.err != nil {
+					s1.Close()
+					r2.Close()
+				}
+			case rr = <-chR:
+				if rr.err != nil {
+					s1.Close()
+					r2.Close()
+				}
+			}
+		}
+		s1.SetDeadline(time.Time{})
+		r2.SetDeadline(time.Time{})
 		if sr.err != nil || rr.err != nil {
 			key := "Handshake:untouched-failed"
 			if seg > 0 {
